@@ -326,6 +326,19 @@ func (x *Exec) checkEnsures(st *State, fr *Frame, results []Val) {
 		}
 		x.emit(st, c.Label, "ensures", t, unf, token.NoPos)
 		x.obls[len(x.obls)-1].Batch = x.batchSeq
+		// vacuity guard per clause: the antecedent of an implication must be reachable at some return
+		// (a contradiction between assumed contracts would otherwise discharge the clause for free)
+		if b, ok := ex.(*EBin); ok && b.Op == "==>" {
+			var unf2 []string
+			env2 := x.envFor(fr, st, results, "ensures")
+			env2.unfold = &unf2
+			if a, err := env2.evalBool(b.X); err == nil {
+				st2 := st.clone()
+				st2.assume(a)
+				x.emit(st2, "cover:"+c.Label, "cover", "false", unf2, token.NoPos)
+				x.obls[len(x.obls)-1].Cover = true
+			}
+		}
 	}
 }
 
